@@ -85,7 +85,7 @@ def seeds_table():
     head = ('%d live seeded changes. Scratch-copy runs (own property and the properties anchored in the touched files): %d caught '
             'with a concrete failing input by at least one check, %d only as "no-failing-input-found", %d not caught. Own property\'s '
             'check with the patch applied to /repo itself (tools/run_repo_seeds.py): %d VIOLATION with a failing input, %d VIOLATION '
-            'without input, %d silent (run for the last round only). FINAL TREE, every change, own property, VERIF_SEED=1 (the seed '
+            'without input, %d silent (run for rounds 8-10, ids -9 ... -11). FINAL TREE, every change, own property, VERIF_SEED=1 (the seed '
             '`vp check` uses; scratch copies): %d VIOLATION with a failing input, %d VIOLATION without input, %d silent, %d not '
             'applicable any more.\n\n' % (n, caught, weak, missed, own_in, own_weak, own_silent, f_in, f_weak, f_silent, f_err))
     return head + '\n'.join(rows) + '\n'
